@@ -501,6 +501,31 @@ func ruleR14(c *Ctx, dv *dev, rule string) {
 			groups[k+"/bad"] = append(groups[k+"/bad"], p)
 		}
 	}
+	// the exemption of action keys above rests on "an action key never starts a note": every press path that reaches
+	// NoteOn has seen the key absent from the (mapping-independent) action table
+	nPress, badPress := 0, ""
+	for _, p := range paths {
+		if len(p.Calls(dv.fn["NoteOn"])) == 0 {
+			continue
+		}
+		nPress++
+		notAction := false
+		for _, a := range p.Atoms {
+			cnd, taken := a.Cond, a.Taken
+			for cnd.Op == "unop" {
+				cnd, taken = cnd.Args[0], !taken
+			}
+			if cnd.Op == "lookupok" && cnd.Args[0].LoadsField(actionMapping) && !taken {
+				notAction = true
+			}
+		}
+		if !notAction {
+			badPress = "a press reaches NoteOn without the key having been found absent from the action table: a key that is an action everywhere but a note in one mapping gets tracked, and its release (after a mapping switch) takes the action path that never consults the tracker - the note is never released. e.g. " + atomsString(p)
+		}
+	}
+	if nPress > 0 {
+		c.Check(badPress == "", rule, "device.handleKEYEvent/notes-only-for-non-action-keys", c.P.Pos(fn.Pos()), fmt.Sprintf("%d press path(s) reach NoteOn, all with the key absent from the action table", nPress), badPress)
+	}
 	for _, k := range sortedKeys(groups) {
 		ps := groups[k]
 		base, verdict, _ := strings.Cut(k, "/ok:")
@@ -1045,6 +1070,32 @@ func ruleDispatch(c *Ctx, dv *dev, rule string, wantKey, wantAbs bool) {
 			continue
 		}
 		c.Check(bad == "", rule, cs.key, pos, fmt.Sprintf("%d consistent path evaluation(s), each calls %s(event) once under the event mutex", n, cs.want.Name()), bad)
+	}
+	// an auto-repeat report of a held key (value 2) is neither a press nor a release: the key handler treats every
+	// non-press as a release (deletes the held-key entry, releases the note), so repeats must be filtered out before it
+	if wantKey {
+		if rep, ok := c.P.constValue(pkgDevice, "EV_KEY_REPEAT"); ok {
+			rv, _ := constant.Int64Val(rep)
+			n, bad := 0, ""
+			for _, p := range paths {
+				if p.End == "cut" || !consistent(p, evKey, rv) {
+					continue
+				}
+				n++
+				for _, e := range p.Effects {
+					if e.Kind == "call" && e.Callee == dv.fn["handleKEYEvent"] {
+						bad = "a key auto-repeat report (value 2) reaches handleKEYEvent, which treats every non-press as a release: holding a key long enough removes it from the held-key set and releases its note"
+					}
+				}
+			}
+			if n == 0 {
+				c.Undec(rule, "device.processEvent/key-repeat-filtered", pos, "no path consistent with a key repeat report")
+			} else {
+				c.Check(bad == "", rule, "device.processEvent/key-repeat-filtered", pos, fmt.Sprintf("%d consistent path(s), none reaches the key handler", n), bad)
+			}
+		} else {
+			c.Undec(rule, "anchor:device.EV_KEY_REPEAT", "-", "constant not found")
+		}
 	}
 	// ProcessEvents: every received event is handed to processEvent
 	pe := dv.fn["ProcessEvents"]
